@@ -216,7 +216,7 @@ static void nx_choice(void)
 		return;
 	}
 	remaining = nx_bound - nx_depth;
-	if (remaining <= 0 || nv_expired()) {
+	if (remaining <= 0 || nv_expired_now()) {
 		if (remaining > 0)
 			nx_sh->cut = 1;		/* deadline cut */
 		nx_do_leaf();
